@@ -16,6 +16,7 @@ STREAMS = ['mkrule', 'match-pairs', 'route-histories', 'client-histories', 'rule
 THEOREMS = ['tables_current', 'mtypes_table_is_spec', 'match_eq_spec', 'namespace_is_component_prefix', 'route_exact',
             'route_independent_of_raising', 'invoked_exact_each_once', 'removed_never_invoked', 'ids_never_reused',
             'rule_text_roundtrip', 'client_text_means_constraints', 'bus_reads_what_the_text_means',
+            'bus_scanner_follows_spec',
             'bus_rule_is_client_rule', 'proxy_gate', 'proxy_delivery', 'proxy_select', 'proxy_cancel',
             'client_refines_router', 'client_signal_exact']
 TRUSTED_BASE = [
@@ -34,7 +35,8 @@ ASSUMPTIONS = [
     'STRING only; the code sees one Python str type) is left unjudged by the oracle',
     'the oracle judges a registration only while it is settled (acknowledged and no removal requested, or removal '
     'acknowledged); it identifies registrations by the order of their addMatch calls, never by id value; ids may be reissued',
-    'rule texts are judged with the specification grammar for values without an apostrophe (the code does not escape; reported)',
+    'rule texts are judged with the grammar of the DBus specification (quoting rule included) for every value; a text the '
+    'specification reads as a rule must be accepted by Bus.dbus_AddMatch',
     'a proxy subscription whose signal name is declared by several interfaces and no interface= was given is not judged',
 ]
 RULE = ('rule x message pairs are derived from a generated message: every subset of constraint keys, values copied '
@@ -1089,14 +1091,12 @@ def canon_text(text):
 
 def text_judgeable(kw):
     """The rule-text clause is judged for rules whose matching is judged (no empty constraint value among the
-    simple keys) and whose values need no escaping (no apostrophe)."""
+    simple keys).  Every other value is judged: commas, equals signs, backslashes and apostrophes inside a
+    value all have a defined spelling in a match rule."""
     for k in ('mtype', 'interface', 'member', 'path', 'destination', 'path_namespace', 'sender', 'arg0namespace'):
         if kw.get(k) == '':
             return False
-    vals = [v for k, v in kw.items() if isinstance(v, str)]
-    for k in ('args', 'arg_paths'):
-        vals += [s for _, s in (kw.get(k) or [])]
-    return all("'" not in v for v in vals)
+    return True
 
 
 def check_meaning(ctx, text, model_line):
@@ -1112,12 +1112,14 @@ def judge_text(ctx, kw, text):
     """'The rule text sent to the bus daemon expresses the same constraints': read the text with the
     specification's grammar and compare the constraints (as a multiset)."""
     if not text_judgeable(kw):
-        ctx.stat('rule-text:not-judged(empty value or apostrophe)')
+        ctx.stat('rule-text:not-judged(empty constraint value)')
         return
     got = spec_parse_rule(text)
     want = text_constraints(kw)
     if got is None or sorted(got) != want:
-        ctx.violation('rule-text-differs', 'the AddMatch text does not express the constraints of the rule: %r' % (text,),
+        vals = [v for v in kw.values() if isinstance(v, str)] + [x for k in ('args', 'arg_paths') for _, x in (kw.get(k) or [])]
+        key = 'rule-text-unescaped-apostrophe' if any("'" in v for v in vals) else 'rule-text-differs'
+        ctx.violation(key, 'the AddMatch text does not express the constraints of the rule: %r' % (text,),
                       inp={'stream': 'rule-text', 'rule': clean_kw(kw)}, observed=text, expected=[list(x) for x in want])
     else:
         ctx.stat('rule-text:ok')
@@ -1415,10 +1417,14 @@ def stream_text(ctx, rules, malformed):
                     else:
                         ctx.stat('bus-rule:ok')
             elif status != 'ok':
-                if text == '':
-                    ctx.stat('bus-rejects-empty-rule')
-                elif text_judgeable(kw):
-                    ctx.stat('bus-rejects-valid-client-text(comma or equals inside a value)')
+                if spec_meaning(text) is not None:
+                    # the text is a rule by the specification's grammar and the bus cannot read it
+                    ctx.violation('bus-rejects-valid-rule-text',
+                                  'Bus.dbus_AddMatch(%r) raises %s: a valid match rule is refused, the rule is never registered'
+                                  % (text, status), inp={'stream': 'rule-text', 'rule': clean_kw(kw)}, observed=status,
+                                  expected='the rule is registered')
+                else:
+                    ctx.stat('bus-rejects-text-that-is-no-rule')
         # ---- malformed / arbitrary texts
         lines, obs = [], []
         for text in malformed:
